@@ -310,7 +310,11 @@ func gobLayers(tier string) []Layer {
 						b := []byte{byte(u), byte(b2), byte(b3)}
 						hostileCase(c, b, func() string { return fmt.Sprintf("payload % x", b) }, preFresh)
 						if u == 1 && (thorough || b3%4 == 0) {
-							for b4 := 0; b4 < 256; b4 += 5 {
+							step := 5
+							if thorough {
+								step = 1
+							}
+							for b4 := 0; b4 < 256; b4 += step {
 								bb := []byte{1, byte(b2), byte(b3), byte(b4)}
 								hostileCase(c, bb, func() string { return fmt.Sprintf("payload % x", bb) }, preFresh)
 							}
